@@ -152,6 +152,7 @@ def unit_sets(tier):
         yield "tree(CORE,3)", list(B.tree(B.CORE, 3)), base[:1]
         yield "mem-family(2)", list(families.mem_family(2)), base[:1]
         yield "rule-family(1)/8", list(families.rule_family(1))[::8], base[:1]
+        yield "mem-family(2)/3@no-simp", list(families.mem_family(2))[::3], base[1:2]
     else:
         yield "tree(CORE+,3)", list(B.tree(B.CORE + EXTRA, 3)), allc
         yield "mem-family(2)", list(families.mem_family(2)), allc
